@@ -18,7 +18,7 @@ LEVEL_NOTE = ('partial: the clauses "peaks where Wien\'s law says" and "integrat
               '(they need d/dλ of Planck\'s law and ∫x³/(eˣ−1)=π⁴/15); they are evaluated numerically on the implementation in every '
               'run. Trusted: tools/specs/c14.py (if-chain/literal reader), np.exp, np.trapz as Σ Δx·(y₀+y₁)/2.')
 TECHNIQUE = 'Lean 4 proof (norm_num/field_simp/ring over generated tables, induction on lists) + differential correspondence at ℚ and Float'
-GEN = ['Units']
+GEN = ['Units', 'SpectrumOps']
 OPS = ['C14']
 RULE = ('all 64 wavelength-unit triples and all 27 flux-unit triples (exhaustive, every run) with random dyadic wavelengths/fluxes; '
         'random spectra (2..9 dyadic samples, every wave unit, unitless and the 3 flux units) through 1..3 chained Spectrum.to '
@@ -26,10 +26,11 @@ RULE = ('all 64 wavelength-unit triples and all 27 flux-unit triples (exhaustive
         'pairs; Wien/Stefan-Boltzmann numerics; vegaflux bands. distinct = (kind, units, sizes); non-trivial = units differ')
 TRUSTED = ['np.exp; np.trapz computes Σ (x[k+1]-x[k])·(y[k+1]+y[k])/2',
            'tools/specs/c14.py reads the if/elif dispatch chains and decimal literals of the unit classes']
-UNPROVEN = ['preservation of the default (Simpson) integral by Spectrum.to — only the trapezoid integral is proved',
+UNPROVEN = ['Wien and Stefan-Boltzmann are numerical checks on the implementation (no theorem): the peak of planck_radiance is located on a 40001-point grid spanning ±2 % around b/T (resolution 1e-6) and must satisfy λ_max·T = hc/(k·4.965114231744276) to 2e-6, plus a coarse global search to 2e-3; ∫ planck_exitance dλ over 2e-8…2e-2 m on 400001 log-spaced points must equal σT⁴ = 2π⁵k⁴/(15h³c²)·T⁴ to 1e-5 (trapezoid error of that grid ≈ 1e-7, truncated tails < 1e-9 for 1500 K ≤ T ≤ 9000 K)',
+            'preservation of the default (Simpson) integral by Spectrum.to — only the trapezoid integral is proved',
             'Planck radiance peaks where Wien\'s displacement law says (numerical check on the implementation only)',
             'Planck exitance integrates to the Stefan-Boltzmann total σT⁴ (numerical check on the implementation only)',
-            'vegaflux: unit-consistency across (waveunit, valueunit) and agreement of the (m, photlam) value with the tabulated Jansky zero points are checked numerically by the oracle only']
+            'vegaflux: unit consistency is a theorem about the translated function (vegaflux_unit_consistent) and the translation is compared with the implementation; agreement of the (m, photlam) value with independent Jansky zero points is an oracle check']
 ASSUMPTIONS = ['observation outside C14\'s statement (Planck functions, Spectrum.to): Blackbody.vegamag(valueunit="wlam"/"flam") stores photlam numbers under the requested label and its sample() disagrees with its value; visible in the tags vegamag:values-not-in-requested-flux-unit / vegamag:sample-differs-from-value; the bbto stream checks to() relative to the stored values',
                'Spectrum.to() accepts only the canonical names m/um/nm/angstrom although its docstring says "as accepted by Unit()" and Unit() also accepts meter/micron/nanometer: such calls raise ValueError today; they are generated, counted (tag to:alias-refused) and reported as a defect candidate, the model follows the code',
                'module constants are compared with CODATA values to 1e-6 (C = 299792456 is off by 6.7e-9: noted, inside the tolerance)',
@@ -231,6 +232,8 @@ def requests(c, io):
     if k == 'to':
         return [{'op': 'c14.to', 'wave': qs(c['wave']), 'value': qs(c['value']), 'wu': c['wu'], 'vu': c['vu'],
                  'units': [u.lower() for u in c['units']], 'H': q(io['H']), 'C': q(io['C'])}]
+    if k == 'vega':
+        return [{'op': 'c14.vega', 'band': c['band'], 'wu': c['wu'], 'vu': c['vu'], 'H': q(io['H']), 'C': q(io['C'])}]
     if k == 'planck':
         rs = []
         for fn in ('radiance', 'exitance'):
@@ -271,6 +274,12 @@ def compare(c, io, mo):
         if not all_close([float(x) for x in unqs(m['value'])], io['value'], 1e-12): return f"value after to{tuple(c['units'])} differs: impl {io['value'][:3]} model {[float(x) for x in unqs(m['value'])][:3]}"
         if not close(float(unq(m['trapz'])), io['trapz'], 1e-12): return 'trapezoid integral differs'
         if not close(io['integrate'], io['trapz'], 1e-13): return 'Spectrum.integrate(trapz) differs from np.trapz'
+        return None
+    if k == 'vega':
+        m = mo[0]
+        if not m.get('ok'): return f'model: {m}'
+        if not close(float(unq(m['flux'])), io['flux'], 1e-13) or not close(float(unq(m['wave'])), io['wave'], 1e-14):
+            return f"vegaflux({c['band']},{c['wu']},{c['vu']}): impl ({io['flux']!r}, {io['wave']!r}) model ({float(unq(m['flux']))!r}, {float(unq(m['wave']))!r})"
         return None
     if k == 'planck':
         got = io['rad'] + io['exi']
@@ -384,7 +393,7 @@ def oracle(c, io):
         sigma = 2 * np.pi ** 5 * K ** 4 / (15 * H ** 3 * C ** 2)
         if not close(io['total'], sigma * T ** 4, 1e-5): return f"∫ exitance dλ = {io['total']!r}, Stefan-Boltzmann σT⁴ = {sigma * T ** 4!r}"
         b = H * C / (K * 4.965114231744276)
-        if not close(io['peak'] * T, b, 2e-5): return f"radiance peaks at λT = {io['peak'] * T!r}, Wien b = {b!r}"
+        if not close(io['peak'] * T, b, 2e-6): return f"radiance peaks at λT = {io['peak'] * T!r}, Wien b = {b!r}"
         if not close(io['global_peak'] * T, b, 2e-3): return f"global radiance peak at λT = {io['global_peak'] * T!r}, Wien b = {b!r}"
         return None
     if k == 'vega':
